@@ -16,20 +16,21 @@ import (
 // Snapshot is a consistent picture of the service (taken inside the service loop) plus what the
 // harness itself holds.
 type Snapshot struct {
-	St       manager.VerifState
-	Rank     map[string]int // index file name -> rank by name among the files on disk and the known readers
-	OnDisk   []string       // *.idx files in the index directory (base names, sorted)
-	Visible  map[uint64]*index.Stream
-	digests  map[*index.Reader]string
-	PC       int
-	Parked   []*Job
-	ViewIdx  map[string][]*index.Reader
-	ViewTags map[string]string // the tag snapshot each held view works with
-	Released map[string]bool
+	St         manager.VerifState
+	Rank       map[string]int // index file name -> rank by name among the files on disk and the known readers
+	OnDisk     []string       // *.idx files in the index directory (base names, sorted)
+	Visible    map[uint64]*index.Stream
+	digests    map[*index.Reader]string
+	PC         int
+	SnapMissed []string
+	Parked     []*Job
+	ViewIdx    map[string][]*index.Reader
+	ViewTags   map[string]string // the tag snapshot each held view works with
+	Released   map[string]bool
 }
 
 func (w *World) Snapshot(pc int) (*Snapshot, error) {
-	s := &Snapshot{St: w.Mgr.VerifDump(), Rank: map[string]int{}, digests: map[*index.Reader]string{}, PC: pc, ViewIdx: map[string][]*index.Reader{}, ViewTags: map[string]string{}, Released: map[string]bool{}}
+	s := &Snapshot{St: w.Mgr.VerifDump(), Rank: map[string]int{}, digests: map[*index.Reader]string{}, PC: pc, SnapMissed: append([]string(nil), w.SnapMissed...), ViewIdx: map[string][]*index.Reader{}, ViewTags: map[string]string{}, Released: map[string]bool{}}
 	ents, err := os.ReadDir(w.IndexDir)
 	if err != nil {
 		return nil, err
@@ -120,6 +121,9 @@ func (s *Snapshot) Canon() string {
 	var sb strings.Builder
 	fmt.Fprintf(&sb, "pc=%d next=%d all=%v upd=%v res=%v add=%v unmerge=%d queue=%v flags=%v%v%v\n", s.PC, s.St.NextStreamID, s.St.AllStreams, s.St.UpdatedDuring, s.St.ResetDuring, s.St.AddedDuring,
 		s.St.NUnmergeableIndexes, s.St.ImportJobs, s.St.MergeJobRunning, s.St.TaggingJobRunning, s.St.ConverterJobRunning)
+	if len(s.SnapMissed) != 0 {
+		fmt.Fprintf(&sb, "snapshot saves missed=%v\n", s.SnapMissed)
+	}
 	for _, t := range s.St.Tags {
 		fmt.Fprintf(&sb, "tag %s|%s|%s|%v|m%v|u%v|r%v\n", t.Name, t.Definition, t.Color, t.Converters, t.Matches, t.Uncertain, t.ReferencedBy)
 	}
